@@ -416,7 +416,7 @@ fn run_c10(ctx: &mut Ctx) {
         if !ctx.mine() {
             continue;
         }
-        for _ in 0..tier.pick(1, 12, 60) {
+        for _ in 0..tier.pick(1, 12, 400) {
             let v = gen::random_bits(n, &mut rng);
             for v1 in VIAS_BASIC {
                 for v2 in VIAS_BASIC {
@@ -427,6 +427,29 @@ fn run_c10(ctx: &mut Ctx) {
                     }
                 }
             }
+        }
+    }
+    // seeded random: value, two lengths >= its significant bits, two production paths
+    {
+        let per = tier.pick(100, 300_000, 4_000_000) / ctx.nworkers + 1;
+        let mut rng = Rng::derive(ctx.seed, 0x1011, ctx.worker as u64);
+        for _ in 0..per {
+            let ty = rng.below(NTYPES);
+            let cap = TYPE_FIXED_CAP[ty].unwrap_or(tier.pick(200, 400, 1100));
+            let sig = if rng.chance(1, 8) { 0 } else { rng.below(cap + 1) };
+            let mut v = gen::random_bits(sig, &mut rng);
+            if sig > 0 {
+                v[sig - 1] = true;
+            }
+            let l1 = sig + rng.below(cap - sig + 1);
+            let l2 = if rng.chance(1, 3) { l1 } else { sig + rng.below(cap - sig + 1) };
+            let mut b1 = v.clone();
+            b1.resize(l1, false);
+            let mut b2 = v.clone();
+            b2.resize(l2, false);
+            let a = Spec::new(ty, b1, via_for(ty, &mut rng));
+            let b = Spec::new(ty, b2, via_for(ty, &mut rng));
+            judge(ctx, &Case::new("hash").with("a", a.enc()).with("b", b.enc()), "W3-seeded-random");
         }
     }
     // all small values, all length pairs
